@@ -425,6 +425,7 @@ float64_t igris_atof64(const char *nptr, char **endptr)
     {
         int e_sign = 1;
         int e_val = 0;
+        const char *e_mark = nptr;
 
         nptr++;
         if (*nptr == '+')
@@ -437,11 +438,14 @@ float64_t igris_atof64(const char *nptr, char **endptr)
             e_sign = -1;
         }
 
+        const char *e_digits = nptr;
         while ((*nptr >= '0' && *nptr <= '9'))
         {
             e_val = e_val * 10 + (*nptr - '0');
             nptr++;
         }
+        if (nptr == e_digits)
+            nptr = e_mark; /* "1e", "1e+": no exponent digits, the e is not part of the number */
         d += e_val * e_sign;
     }
 
